@@ -156,8 +156,15 @@ Definition C09_prefix_exact_full : Prop :=
     map ser_tok (idents (o_tokens (w_normal (transform o tree endp)))) =
     map ser_tok (idents (map e_tok (so_normal (expected o tree)))).
 
-(* D25  @import 'a' layer(b.t);  with an import sign and a prefix: the layer name `b.t` goes through
-   the class-name converter (`@layer b.p--t`) *)
+(* Status of C09_prefix_exact_full: it was refuted by `.a:not(:is(.b .c))` (D13) and then by
+   `@import 'a' layer(b.t)` (D25); both are repaired in the code and both witnesses satisfy the
+   statement now (anchors below).  None of the remaining known classes (15 24 27 28, limits of
+   cssparser's serializer) touches identifiers or comments, and no counterexample is known: the
+   statement is neither refuted nor proved as a whole.  What is proved instead, for every prelude
+   of every depth and every declaration block: Proofs/CssClassProofs.v (class_exact_rule). *)
+
+(* Former D25 witness  @import 'a' layer(b.t);  with an import sign and a prefix (before fix 661ebe6
+   the layer name went through the class-name converter: `@layer b.p--t`) *)
 Definition d25_opts : opts := mkopts (Some [112]) None 1144750080 (Some [73]) false None.
 Definition d25_tree : list node :=
   [Leaf (TAt s_import) (P 0 0); Leaf (TWs [32]) (P 0 7); Leaf (TStr [97]) (P 0 8); Leaf (TWs [32]) (P 0 11);
@@ -165,15 +172,29 @@ Definition d25_tree : list node :=
      [Leaf (TIdent [98]) (P 0 18); Leaf (TDelim 46) (P 0 19); Leaf (TIdent [116]) (P 0 20)] (P 0 21) true;
    Leaf TSemi (P 0 22)].
 
-Theorem prefix_exact_refuted : ~ C09_prefix_exact_full.
-Proof.
-  intro H. specialize (H d25_opts d25_tree (P 0 23)).
-  assert (W : wf_tree d25_opts d25_tree = true) by (vm_compute; reflexivity).
-  specialize (H W). clear W. vm_compute in H. discriminate H.
-Qed.
+Example former_d25_now_conforms :
+  wf_tree d25_opts d25_tree = true /\ known d25_opts d25_tree = [] /\
+  model_conforms d25_opts d25_tree (P 0 23) = true /\
+  map ser_tok (o_tokens (w_normal (transform d25_opts d25_tree (P 0 23)))) =
+    [[64;108;97;121;101;114]; [32]; [98]; [46]; [116]; [123]; [47;42;73;32;97;42;47]; [125]] /\
+  map ser_tok (idents (o_tokens (w_normal (transform d25_opts d25_tree (P 0 23))))) =
+  map ser_tok (idents (map e_tok (so_normal (expected d25_opts d25_tree)))).
+Proof. vm_compute. repeat split; reflexivity. Qed.
 
-Example prefix_exact_refuted_class : known d25_opts d25_tree = [K25].
-Proof. vm_compute. reflexivity. Qed.
+(* Former D26 witness  : host{a:b}  with host conversion (before fix bdd7adf the invalid rule was
+   converted into `[wx-host=""]{a:b}`); it is now written unchanged to the normal output *)
+Definition d26_opts : opts := mkopts None None 1144750080 None true None.
+Definition d26_tree : list node :=
+  [Leaf TColon (P 0 0); Leaf (TWs [32]) (P 0 1); Leaf (TIdent s_host) (P 0 2);
+   Block TCurly (P 0 6) [Leaf (TIdent [97]) (P 0 7); Leaf TColon (P 0 8); Leaf (TIdent [98]) (P 0 9)] (P 0 10) true].
+
+Example former_d26_now_conforms :
+  wf_tree d26_opts d26_tree = true /\ known d26_opts d26_tree = [] /\
+  model_conforms d26_opts d26_tree (P 0 11) = true /\
+  o_text (w_low (transform d26_opts d26_tree (P 0 11))) = [] /\
+  map ser_tok (o_tokens (w_normal (transform d26_opts d26_tree (P 0 11)))) =
+    [[58]; [32]; [104;111;115;116]; [123]; [97]; [58]; [98]; [125]].
+Proof. vm_compute. repeat split; reflexivity. Qed.
 
 (* the former refutation witness `.a:not(:is(.b .c))` (D13) now satisfies the statement *)
 Example prefix_exact_former_d13 :
